@@ -48,6 +48,17 @@ func (Labeler) After(x *Exec, op *Op, res *Res) {
 		if pre.Vals[i].Status != 0 && post.Vals[i].Status == 0 {
 			x.Label("validator-removed")
 			marked := false
+			// shares the module still recorded for the validator (with or without delegations
+			// behind them) vanish with the record, the asset's share total keeps them
+			for _, dn := range sortedKeys(pre.Vals[i].ValShares) {
+				if pre.Vals[i].ValShares[dn].IsPositive() {
+					if x.RemovedWithStake == nil {
+						x.RemovedWithStake = map[string]bool{}
+					}
+					x.RemovedWithStake[fmt.Sprintf("%d|%s", i, dn)] = true
+					x.RemovedWithStake[dn] = true
+				}
+			}
 			for _, d := range post.Dels {
 				if d.V == i {
 					if x.RemovedWithStake == nil {
